@@ -58,6 +58,16 @@ def transitionProbability (exp : K → K) (eInit eProp : K) : K :=
 /-- `random.bernoulli(key, p)` is `uniform(key) < p` -/
 def accept (u p : K) : Bool := decide (u < p)
 
+/-- `expit(x) = 1/(1+exp(-x))`, the keep-probability `expit(tree.logweight - neg_energy)` of `add_single_qp_to_tree` -/
+def expit [Add K] [Neg K] [Div K] (exp : K → K) (x : K) : K := 1 / (1 + exp (-x))
+
+/-- `add_single_qp_to_tree`: probability of keeping the old candidate -/
+def keepProb [Add K] [Neg K] [Div K] (exp : K → K) (wOld negEnergy : K) : K := expit exp (wOld - negEnergy)
+
+/-- `merge_trees`: probability of taking the new sub-tree's candidate -/
+def mergeProb [Add K] [Neg K] [Div K] (exp : K → K) (bias : Bool) (wNew wCur : K) : K :=
+  if bias then transitionProbability exp wNew wCur else expit exp (wNew - wCur)
+
 /-- `select(accept, (proposed, initial), (initial, proposed))` -/
 def selectAccRej {α : Type} (acc : Bool) (proposed initial : α) : α × α :=
   if acc then (proposed, initial) else (initial, proposed)
